@@ -62,6 +62,7 @@ const (
 type item struct {
 	kind int
 	v    string // variable (show/set)
+	vt   string // its type: int (default) | myInt | any | shower | ptr
 	n    int    // value (set)
 	tag  int    // show
 	name string // local / closure variable
@@ -95,6 +96,7 @@ type fileSpec struct {
 
 type spec struct {
 	declared []string
+	vtype    map[string]string // type of each declared variable ('' = int)
 	main     *fnSpec
 	mainPath string
 	extends  *fileSpec // the extending file (index.txt) when main is a layout
@@ -125,6 +127,32 @@ func (g *gen) newFn(kind int, name string, parent *fnSpec, goCtx bool) *fnSpec {
 }
 
 func (g *gen) tag() int { g.sp.nextTag++; return g.sp.nextTag }
+
+// varItem makes a show or set item on a random variable.
+func (g *gen) varItem(kind int) *item {
+	v := g.pickVar()
+	it := &item{kind: kind, v: v, vt: g.sp.vtype[v]}
+	if kind == iShow {
+		it.tag = g.tag()
+	} else {
+		it.n = 10 + g.r.Intn(90)
+	}
+	return it
+}
+
+// pickPlain picks a variable whose value can be copied into a package variable and shown as is.
+func (g *gen) pickPlain() (string, bool) {
+	var c []string
+	for _, v := range g.sp.declared {
+		if t := g.sp.vtype[v]; t == "" || t == "myInt" {
+			c = append(c, v)
+		}
+	}
+	if len(c) == 0 {
+		return "", false
+	}
+	return c[g.r.Intn(len(c))], true
+}
 
 func (g *gen) pickVar() string {
 	// biased to the first variables so that several references meet on one variable
@@ -160,9 +188,9 @@ func (g *gen) body(f *fnSpec, sc scope, depth, n int) {
 		}
 		switch {
 		case k < 30:
-			f.body = append(f.body, &item{kind: iShow, v: g.pickVar(), tag: g.tag()})
+			f.body = append(f.body, g.varItem(iShow))
 		case k < 50:
-			f.body = append(f.body, &item{kind: iSet, v: g.pickVar(), n: 10 + g.r.Intn(90)})
+			f.body = append(f.body, g.varItem(iSet))
 		case k < 56:
 			name := fmt.Sprintf("a%d", g.tag())
 			f.body = append(f.body, &item{kind: iLocal, name: name})
@@ -190,7 +218,7 @@ func (g *gen) body(f *fnSpec, sc scope, depth, n int) {
 			m := sc.renders[g.r.Intn(len(sc.renders))]
 			f.body = append(f.body, &item{kind: iRender, fn: m})
 		default:
-			f.body = append(f.body, &item{kind: iShow, v: g.pickVar(), tag: g.tag()})
+			f.body = append(f.body, g.varItem(iShow))
 		}
 	}
 }
@@ -204,10 +232,10 @@ func (g *gen) file(path string, depth int) *fileSpec {
 	for _, im := range fl.imports {
 		callable = append(callable, im.macros...)
 	}
-	if g.r.Intn(4) == 0 {
+	if pv, ok := g.pickPlain(); ok && g.r.Intn(4) == 0 {
 		fl.initVars = g.newFn(fInitVars, "$initvars", nil, false)
 		for i := 0; i < 1+g.r.Intn(2); i++ {
-			fl.vars = append(fl.vars, pkgVar{name: fmt.Sprintf("X%d", g.tag()), v: g.pickVar(), tag: g.tag(), noInit: g.r.Intn(3) == 0})
+			fl.vars = append(fl.vars, pkgVar{name: fmt.Sprintf("X%d", g.tag()), v: pv, tag: g.tag(), noInit: g.r.Intn(3) == 0})
 		}
 	}
 	for i := 0; i < 1+g.r.Intn(3); i++ {
@@ -228,8 +256,12 @@ func (g *gen) file(path string, depth int) *fileSpec {
 func generate(r *proto.Rand) *spec {
 	sp := &spec{mainPath: "index.txt"}
 	g := &gen{r: r, sp: sp}
+	sp.vtype = map[string]string{}
 	for i := 0; i < 1+r.Intn(4); i++ {
-		sp.declared = append(sp.declared, fmt.Sprintf("v%d", i))
+		v := fmt.Sprintf("v%d", i)
+		sp.declared = append(sp.declared, v)
+		// the variable's type: int, a named type, an interface (empty and named), a pointer type
+		sp.vtype[v] = []string{"", "", "", "", "any", "any", "myInt", "myInt", "shower", "ptr"}[r.Intn(10)]
 	}
 	sp.main = g.newFn(fMain, "main", nil, false)
 	var callable []*fnSpec
@@ -270,6 +302,49 @@ func (sp *spec) isDeclared(v string) bool {
 	return false
 }
 
+// readExpr / writeExpr: how a variable of each type is read as an integer and given one.
+func readExpr(v, vt string) string {
+	switch vt {
+	case "shower":
+		return v + ".Show()"
+	case "ptr":
+		return "*" + v
+	}
+	return v
+}
+
+func writeExpr(n int, vt string) string {
+	switch vt {
+	case "shower":
+		return fmt.Sprintf("box(%d)", n)
+	case "ptr":
+		return fmt.Sprintf("np(%d)", n)
+	}
+	return strconv.Itoa(n)
+}
+
+type myInt int
+
+type shower interface{ Show() int }
+
+type boxed int
+
+func (b boxed) Show() int { return int(b) }
+
+func toInt(v any) int {
+	switch v := v.(type) {
+	case int:
+		return v
+	case myInt:
+		return int(v)
+	case boxed:
+		return int(v)
+	case *int:
+		return *v
+	}
+	return -999
+}
+
 func renderGo(b *strings.Builder, body []*item) {
 	for i, it := range body {
 		if i > 0 {
@@ -277,9 +352,9 @@ func renderGo(b *strings.Builder, body []*item) {
 		}
 		switch it.kind {
 		case iShow:
-			fmt.Fprintf(b, "emit(%d, %s)", it.tag, it.v)
+			fmt.Fprintf(b, "emit(%d, %s)", it.tag, readExpr(it.v, it.vt))
 		case iSet:
-			fmt.Fprintf(b, "%s = %d", it.v, it.n)
+			fmt.Fprintf(b, "%s = %s", it.v, writeExpr(it.n, it.vt))
 		case iLocal:
 			fmt.Fprintf(b, "%s := 0; _ = %s", it.name, it.name)
 		case iTouch:
@@ -299,9 +374,9 @@ func renderTmpl(b *strings.Builder, body []*item) {
 		switch it.kind {
 		case iShow:
 			v := strings.TrimPrefix(it.v, "\x00")
-			fmt.Fprintf(b, "[T%d={{ %s }}]", it.tag, v)
+			fmt.Fprintf(b, "[T%d={{ %s }}]", it.tag, readExpr(v, it.vt))
 		case iSet:
-			fmt.Fprintf(b, "{%% %s = %d %%}", it.v, it.n)
+			fmt.Fprintf(b, "{%% %s = %s %%}", it.v, writeExpr(it.n, it.vt))
 		case iLocal:
 			fmt.Fprintf(b, "{%% var %s = 0 %%}{%% _ = %s %%}", it.name, it.name)
 		case iTouch:
@@ -659,6 +734,8 @@ func (sp *spec) line(init map[string]initVal) string {
 		switch iv.kind {
 		case "v", "p":
 			fmt.Fprintf(&b, " %s %s %d", v, iv.kind, iv.n)
+		case "wtv":
+			fmt.Fprintf(&b, " %s wt", v)
 		default:
 			fmt.Fprintf(&b, " %s %s", v, iv.kind)
 		}
@@ -704,14 +781,27 @@ func build(sp *spec) (*built, string) {
 	log := &[][2]int{}
 	mu := &sync.Mutex{}
 	globals := native.Declarations{
-		"emit": func(tag, val int) {
+		"emit": func(tag int, val any) {
 			mu.Lock()
-			*log = append(*log, [2]int{tag, val})
+			*log = append(*log, [2]int{tag, toInt(val)})
 			mu.Unlock()
 		},
+		"box": func(n int) shower { return boxed(n) },
+		"np":  func(n int) *int { return &n },
 	}
 	for _, v := range sp.declared {
-		globals[v] = (*int)(nil)
+		switch sp.vtype[v] {
+		case "myInt":
+			globals[v] = (*myInt)(nil)
+		case "any":
+			globals[v] = (*any)(nil)
+		case "shower":
+			globals[v] = (*shower)(nil)
+		case "ptr":
+			globals[v] = (**int)(nil)
+		default:
+			globals[v] = (*int)(nil)
+		}
 	}
 	var t *scriggo.Template
 	var err error
@@ -732,22 +822,68 @@ func build(sp *spec) (*built, string) {
 func (bt *built) run(sp *spec, init map[string]initVal) *observation {
 	obs := &observation{shown: map[int][]int{}, pointee: map[string]int{}, values: map[string]int{}}
 	vars := map[string]any{}
-	ptrs := map[string]*int{}
+	pointee := map[string]func() int{} // reads the caller's variable after Run
+	value := map[string]func() int{}   // reads a passed value after Run
 	for v, iv := range init {
-		switch iv.kind {
+		n := iv.n
+		switch vt := sp.vtype[v]; iv.kind {
 		case "v":
-			vars[v] = iv.n
+			switch vt {
+			case "myInt":
+				vars[v] = myInt(n)
+			case "ptr":
+				x := n
+				vars[v] = &x
+				value[v] = func() int { return x }
+			default:
+				vars[v] = n
+			}
 		case "p":
-			p := new(int)
-			*p = iv.n
-			ptrs[v] = p
-			vars[v] = p
+			switch vt {
+			case "myInt":
+				x := myInt(n)
+				vars[v], pointee[v] = &x, func() int { return int(x) }
+			case "any":
+				var x any = n
+				vars[v], pointee[v] = &x, func() int { return toInt(x) }
+			case "shower":
+				var x shower = boxed(n)
+				vars[v], pointee[v] = &x, func() int { return toInt(x) }
+			case "ptr":
+				x := n
+				px := &x
+				vars[v], pointee[v] = &px, func() int { return *px }
+			default:
+				x := n
+				vars[v], pointee[v] = &x, func() int { return x }
+			}
 		case "nil":
 			vars[v] = nil
 		case "nilp":
-			vars[v] = (*int)(nil)
+			switch vt {
+			case "myInt":
+				vars[v] = (*myInt)(nil)
+			case "any":
+				vars[v] = (*any)(nil)
+			case "shower":
+				vars[v] = (*shower)(nil)
+			case "ptr":
+				vars[v] = (**int)(nil)
+			default:
+				vars[v] = (*int)(nil)
+			}
 		case "wt":
 			vars[v] = "a string"
+		case "wtv":
+			// a value assignable to the variable's type but not of that type
+			switch vt {
+			case "any":
+				vars[v] = n
+			case "shower":
+				vars[v] = boxed(n)
+			default:
+				vars[v] = "a string"
+			}
 		}
 	}
 	*bt.log = (*bt.log)[:0]
@@ -771,12 +907,16 @@ func (bt *built) run(sp *spec, init map[string]initVal) *observation {
 		obs.shown[e[0]] = append(obs.shown[e[0]], e[1])
 	}
 	obs.used = bt.t.UsedVars()
-	for v, p := range ptrs {
-		obs.pointee[v] = *p
+	for v, f := range pointee {
+		obs.pointee[v] = f()
 	}
 	for v, iv := range init {
 		if iv.kind == "v" {
-			obs.values[v] = reflect.ValueOf(vars[v]).Interface().(int)
+			if f, ok := value[v]; ok {
+				obs.values[v] = f()
+			} else {
+				obs.values[v] = toInt(vars[v])
+			}
 		}
 	}
 	return obs
@@ -1105,9 +1245,9 @@ func human(sp *spec, init map[string]initVal) string {
 	}
 	b.WriteString("Globals:")
 	for _, v := range sp.declared {
-		fmt.Fprintf(&b, " %s:(*int)(nil)", v)
+		fmt.Fprintf(&b, " %s:(*%s)(nil)", v, map[string]string{"": "int", "myInt": "myInt", "any": "any", "shower": "shower", "ptr": "*int"}[sp.vtype[v]])
 	}
-	b.WriteString(" emit:func(tag,val int)\nRun vars:")
+	b.WriteString(" emit:func(tag int, val any) box:func(int) shower np:func(int) *int\nRun vars:")
 	for _, v := range initNames(init) {
 		switch iv := init[v]; iv.kind {
 		case "v":
@@ -1196,13 +1336,19 @@ func fixedSpecs() []*spec {
 func randomInit(r *proto.Rand, sp *spec, allowBad bool) map[string]initVal {
 	init := map[string]initVal{}
 	for _, v := range sp.declared {
+		vt := sp.vtype[v]
+		iface := vt == "any" || vt == "shower"
 		switch k := r.Intn(20); {
-		case k < 8:
+		case k < 8 && !iface:
+			// (a value of an interface type cannot be passed as such: only a pointer to it)
 			init[v] = initVal{kind: "v", n: 1 + r.Intn(9)}
-		case k < 15:
+		case k < 15 || iface && k != 15 || vt == "ptr" && k != 15:
+			// interface- and pointer-typed variables always get a value: their zero value cannot be shown
 			init[v] = initVal{kind: "p", n: 1 + r.Intn(9)}
 		case k == 15 && allowBad:
-			init[v] = initVal{kind: []string{"nil", "nilp", "wt"}[r.Intn(3)]}
+			init[v] = initVal{kind: []string{"nil", "nilp", "wt", "wtv"}[r.Intn(4)], n: 1 + r.Intn(9)}
+		case iface || vt == "ptr":
+			init[v] = initVal{kind: "p", n: 1 + r.Intn(9)}
 		}
 	}
 	// a name that is no global variable but a variable an imported file declares itself: no effect
@@ -1214,7 +1360,7 @@ func randomInit(r *proto.Rand, sp *spec, allowBad bool) map[string]initVal {
 
 func runC17(c *hx.Ctx) error {
 	res := c.Res
-	res.Rule = "generated template sets (main file; macros of the main file; function literals nested up to depth 3 with captured locals; imported files with macros, package variables and one nested import; extending and rendered files) over 1-4 globals declared as (*int)(nil), each built once and run with 3 random vars maps (value / pointer / absent, a few invalid); plus 7 fixed cases (the two defects found and their variants) under 4 maps each. A case is non-trivial when at least two different functions refer to the same variable; distinct by sources+vars"
+	res.Rule = "generated template sets (main file; macros of the main file; function literals nested up to depth 3 with captured locals; imported files with macros, package variables and one nested import; extending and rendered files) over 1-4 globals declared without value of type int, a named integer type, any, a named interface, or *int (pointers to interface values and to pointers included; a plain value where only a pointer to an interface fits among the invalid ones), each built once and run with 3 random vars maps (value / pointer / absent, a few invalid); plus 7 fixed cases (the two defects found and their variants) under 4 maps each. A case is non-trivial when at least two different functions refer to the same variable; distinct by sources+vars"
 	if os.Getenv("VERIF_REPO") != "" {
 		res.Notes = append(res.Notes, "built against "+filepath.Clean(os.Getenv("VERIF_REPO")))
 	}
